@@ -8,7 +8,8 @@ namespace Spowtd
 
 theorem zetaGrid_mem (zmin zmax step : Rat) (k : Int) :
     k ∈ zetaGrid zmin zmax step ↔ Rat.floor (zmin / step) ≤ k ∧ k < Rat.ceil (zmax / step) := by
-  sorry
+  rw [rat_floor_eq, rat_ceil_eq]
+  exact mem_zetaGrid zmin zmax step k
 
 /-- Every multiple of the step lying in `[zmin, zmax)` is a grid level, and so is the level at or
     just below `zmin` (when the range is not empty). -/
@@ -16,17 +17,33 @@ theorem grid_covers_range (zmin zmax step : Rat) (hs : 0 < step) (k : Int) :
     (zmin ≤ (k : Rat) * step ∧ (k : Rat) * step < zmax → k ∈ zetaGrid zmin zmax step) ∧
     (zmin < zmax → Rat.floor (zmin / step) ∈ zetaGrid zmin zmax step ∧
       ((Rat.floor (zmin / step) : Int) : Rat) * step ≤ zmin) := by
-  sorry
+  rw [rat_floor_eq]
+  exact ⟨fun h => zetaGrid_of_between hs h.1 h.2, zetaGrid_floor hs⟩
 
 /-- Every level crossed by a series whose samples lie in `[zmin, zmax]` is a grid level. -/
 theorem levels_in_grid (zmin zmax step : Rat) (hs : 0 < step) (pts : List (Rat × Rat))
     (hb : ∀ p ∈ pts, zmin ≤ p.2 ∧ p.2 ≤ zmax) (k : Int) (x : Rat) (h : (k, x) ∈ crossings step pts) :
-    k ∈ zetaGrid zmin zmax step := by
-  sorry
+    k ∈ zetaGrid zmin zmax step :=
+  crossings_level_in_grid hs hb h
 
 /-- The grid never extends a whole step beyond the observed range. -/
 theorem grid_tight (zmin zmax step : Rat) (hs : 0 < step) (k : Int) (h : k ∈ zetaGrid zmin zmax step) :
-    zmin - step < (k : Rat) * step ∧ (k : Rat) * step < zmax := by
-  sorry
+    zmin - step < (k : Rat) * step ∧ (k : Rat) * step < zmax :=
+  zetaGrid_tight hs h
+
+/-! ### non-vacuity -/
+
+/-- `zmin/step` and `zmax/step` integral: the level at `zmin` is in, the level at `zmax` is not -/
+example : zetaGrid (1 : Rat) 3 (1/2) = [2, 3, 4, 5] := by decide +kernel
+/-- neither integral: one level below `zmin`, the last one below `zmax` -/
+example : zetaGrid (11/10 : Rat) (29/10) (1/2) = [2, 3, 4, 5] := by decide +kernel
+/-- negative levels -/
+example : zetaGrid (-7/10 : Rat) (1/10) (1/4) = [-3, -2, -1, 0] := by decide +kernel
+/-- empty range, empty grid -/
+example : zetaGrid (1 : Rat) 1 (1/2) = [] := by decide +kernel
+/-- a series within `[1/2, 5/2]`: its crossed levels 1, 2 are grid levels -/
+example : (2 : Int) ∈ zetaGrid (1/2 : Rat) (5/2) 1 :=
+  levels_in_grid (1/2) (5/2) 1 (by decide +kernel) [(0, 1/2), (1, 3/2), (2, 1/2), (4, 5/2)]
+    (by decide +kernel) 2 (7/2) (by decide +kernel)
 
 end Spowtd
